@@ -28,7 +28,7 @@ LEVEL = {
  "C13": ("proof", "The VM's comparator only: Executor::values_equal (what pinned matches, literal matches and repeated binders execute through the Equal instruction) returns exactly the property's structural equality - equal integers, byte-equal binaries whatever their storage (constant table, heap rope of any shape), same canonical tuple shape and pairwise-equal fields, same definition and pairwise-equal captures, same process, same ref, different kinds differ - for all values of any depth, and that relation is proved reflexive (on valid values), symmetric and transitive; handle_equal pushes the first value exactly when all compared values are structurally equal to it, nil otherwise, and keeps the heap accounting balanced. Not decided: that the compiler / program updates give equal shapes equal canonical ids on every path (assumption A-canon; seeded change R4b lives there), uniqueness of minted refs across workers, and resource handles (the property is silent about them).", "DESIGN.md §4 C13"),
  "C16": ("proof", "VM mechanism of tail calls: executing TailCall never adds a frame, resets the frame's locals to base (+captures), changes the operand stack by exactly 0/-1 and releases what it drops; release queues what reaches count 0 and process_pending_free empties the queue and frees every queued slot still at count 0, and Executor::step begins every time slice with it; for all states. Compiler-side residue (what is emitted around ^) is not decided; step's own postconditions (frame teardown, where else reclamation may not happen) are decided under C06 / C15.", "DESIGN.md §4 C16"),
 }
-NOTE = "Trusted: Verus 0.2026.09.13 + bundled Z3 4.16.0; vstd's specs of std; the assumed contracts listed by the mechanical scan in evidence.coverage.trusted_base (BigInt arithmetic = mathematical integers, derived Clone returns an equal value, Display/format is total, usize is 64 bit, dropping has no observable effect, a handful of std functions and iterator pieces vstd does not specify, the process table as an abstract map, handle_call's Function branch, the two instruction dispatchers, the runtime's own refcount oracle not firing, the receive-type test as an uninterpreted predicate); the extractor's closed list of syntactic normalisations N1-N17 and ghost-only splice anchors S1-S11 (DESIGN.md §2.1), each logged and undone by the erasure self-check on every run. Bounded stand-ins on the real code (boundary differential, transfer differential, program corpus) run only when the deductive check is undecided or in the thorough tier, are labelled bounded and never counted as proved."
+NOTE = "Trusted: Verus 0.2026.09.13 + bundled Z3 4.16.0; vstd's specs of std; the assumed contracts listed by the mechanical scan in evidence.coverage.trusted_base (BigInt arithmetic = mathematical integers, derived Clone returns an equal value, Display/format is total, usize is 64 bit, dropping has no observable effect, a handful of std functions and iterator pieces vstd does not specify, the process table as an abstract map, handle_call's Function branch, the two instruction dispatchers, the runtime's own refcount oracle not firing, the receive-type test as an uninterpreted predicate); the extractor's closed list of syntactic normalisations N1-N18 and ghost-only splice anchors S1-S11 (DESIGN.md §2.1), each logged and undone by the erasure self-check on every run. Bounded stand-ins on the real code (boundary differential, transfer differential, program corpus) run only when the deductive check is undecided or in the thorough tier, are labelled bounded and never counted as proved."
 TECH = "contract-based deductive verification (Verus/Z3) of functions re-extracted mechanically from /repo on every run"
 
 def main():
